@@ -312,7 +312,7 @@ def model_cases(rng, quick):
         K = 3
         ls = ["cfg %d %d hb %d" % (K, 3 * K, n)]
         for t in range(K):
-            ls += [l for l in _thread_script(rng, t, K, 5 + rng.randrange(3)) if not l.startswith("qb")]
+            ls += _thread_script(rng, t, K, 5 + rng.randrange(3))
         cases.append(("hbr%d" % i, ls))
     return cases
 
